@@ -324,6 +324,10 @@ func wsCases(r *mon.Run, emit func(textCase)) {
 					}
 				}
 			}
+			// bytes a lenient reader could take for white space, before BEGIN
+			for _, p := range leadingPrefixes() {
+				emit(textCase{append(append([]byte{}, p.bytes...), arm...), fmt.Sprintf("%s before %s", p.name, name)})
+			}
 			// both sides at once
 			for _, kl := range []int{1, 1023, 1024, 1025} {
 				for _, kt := range []int{1, 1022, 1023, 1024} {
@@ -499,4 +503,37 @@ func skippedCharCases(r *mon.Run, emit func(tc textCase, wide bool)) {
 			}
 		}
 	}
+}
+
+type prefix struct {
+	name  string
+	bytes []byte
+}
+
+// leadingPrefixes: data in front of the BEGIN line made of bytes that a lenient
+// reader could take for white space: lone Latin-1 bytes 0x85 / 0xA0 (white
+// space only as code points, not as bytes), the ASCII separators 0x1C..0x1F,
+// VT, FF, NUL, the UTF-8 encodings of NEL, NBSP, LS, ideographic space and the
+// byte order mark — each alone, followed by LF, and mixed with tolerated white
+// space, up to about 1024 bytes — and plain ASCII blanks and empty lines (which
+// the model tolerates: controls).
+func leadingPrefixes() []prefix {
+	var out []prefix
+	add := func(b string) {
+		out = append(out, prefix{fmt.Sprintf("%+q", trunc([]byte(b), 40)) + fmt.Sprintf(" (%d bytes)", len(b)), []byte(b)})
+	}
+	units := []string{"\x85", "\xa0", "\x1c", "\x1d", "\x1e", "\x1f", "\x0b", "\x0c", "\x00",
+		"\xc2\x85", "\xc2\xa0", "\xe2\x80\xa8", "\xe3\x80\x80", "\xef\xbb\xbf", " ", "\t", "\r"}
+	for _, u := range units {
+		add(u)
+		add(u + "\n")
+		add("\n " + u + " \r\n")
+	}
+	for _, m := range []string{"\n", "\r\n", "\n\n \t\n", "\n\xa0\r\n \x85\t", "\n\xa0\r\n \x85\t\n", "\x85\xa0\n", "\xa0\x85\x85\xa0", " \xa0 \n\x85\n",
+		"\x1c\x1d\x1e\x1f\n", "\xc2\xa0\xa0\n", "\xef\xbb\xbf\n\n",
+		strings.Repeat("\n", 1000) + "\x85\n", strings.Repeat("\xa0", 1023), strings.Repeat("\xa0", 1023) + "\n", strings.Repeat("\x85\n", 512), strings.Repeat(" ", 900) + "\n\xa0\n",
+		strings.Repeat("\n", 1024), strings.Repeat("\n", 1023) + "\x85", strings.Repeat("\n", 1025)} {
+		add(m)
+	}
+	return out
 }
